@@ -57,19 +57,21 @@ def gen_cases(seed, tier):
             mode = "big"
         add("prim", dom, target=str(rng.choice(["interior", "boundary"])), mode=mode, nsmall=int(rng.choice([1, 2, 10])))
     n_comp = 36 if quick else 400
-    forced = [("bool", "interior", "small", 1), ("bool", "interior", "small", 10), ("bool", "boundary", "dens", 1),
-              ("product", "interior", "big", 1), ("bool", "interior", "dens", 1), ("bool", "boundary", "small", 1),
-              ("rotate", "interior", "big", 1), ("translate", "interior", "big", 1), ("bool", "boundary", "big", 1)]
+    # (kind, target, mode, nsmall, required root operation) -- the first comp cases are forced so that every anchored
+    # mechanism is reached for every seed
+    forced = [("bool", "interior", "small", 1, ("cut", "isect")), ("bool", "interior", "small", 10, ("cut", "isect")),
+              ("bool", "boundary", "dens", 1, None), ("product", "interior", "big", 1, None),
+              ("bool", "interior", "dens", 1, ("union",)), ("bool", "boundary", "small", 1, None),
+              ("rotate", "interior", "big", 1, None), ("translate", "interior", "big", 1, None),
+              ("bool", "boundary", "big", 1, None), ("bool", "interior", "big", 1, ("union",))]
     for i in range(n_comp):
         allow = ("bool", "bool", "translate", "rotate", "product")
         if i < len(forced):
             allow = (forced[i][0],)
         for _try in range(40):
             dom = gen_geo.gen_domain(rng, max_depth=int(rng.integers(1, 3 if quick else 4)), k=int(rng.choice([0, 0, 1, 2])),
-                                     allow=allow)
-            # the forced n=1 cases must reach the cut / intersection rejection loop
-            if not (i < len(forced) and forced[i][0] == "bool" and forced[i][3] == 1 and forced[i][2] == "small"
-                    and dom["spec"].get("op") not in ("cut", "isect")):
+                                     allow=allow, dim=2 if (i < len(forced) and forced[i][0] in ("rotate", "translate", "product")) else None)
+            if not (i < len(forced) and forced[i][4] and dom["spec"].get("op") not in forced[i][4]):
                 break
         mode = str(rng.choice(["big", "big", "small", "dens"]))
         if dom["k"] > 1 and mode == "dens":
@@ -77,15 +79,48 @@ def gen_cases(seed, tier):
         target = str(rng.choice(["interior", "interior", "boundary"]))
         nsm = int(rng.choice([1, 2, 10]))
         if i < len(forced):
-            _, target, mode, nsm = forced[i]
+            _, target, mode, nsm, _ = forced[i]
             if dom["k"] > 1 and mode == "dens":
                 mode = "big"
         if dom["info"]["kind"] == "product":
             target = "interior"
         add("comp", dom, target=target, mode=mode, nsmall=nsm)
+    for i in range(6 if quick else 60):
+        # disjoint union whose mixing ratio |A| / (|A| + |B|) differs strongly between the parameter rows
+        c = rng.uniform(-2, 2, 2)
+        ra, rb = float(rng.uniform(0.25, 0.4)), float(rng.uniform(0.6, 1.0))
+        A = {"prim": "circle", "var": "x", "center": [float(c[0]), float(c[1])],
+             "radius": {"a": [ra], "terms": [{"var": "t", "col": 0, "kind": "lin", "coef": [float(rng.uniform(0.5, 0.9))]}]}}
+        if rng.random() < 0.4:
+            A = {"prim": "parallelogram", "var": "x", "origin": [float(c[0]), float(c[1])],
+                 "c1": {"a": [float(c[0] + ra), float(c[1])], "terms": [{"var": "t", "col": 0, "kind": "lin", "coef": [0.8, 0.0]}]},
+                 "c2": [float(c[0]), float(c[1] + 1.0)]}
+        B = {"prim": "circle", "var": "x", "center": [float(c[0] + 6.0), float(c[1])], "radius": rb}
+        spec = {"op": "union", "a": A, "b": B, "flag": True} if rng.random() < 0.5 else {"op": "union", "a": B, "b": A, "flag": True}
+        k = int(rng.choice([2, 3]))
+        tv = rng.permutation(np.array([0.1, 1.0, 2.0]))[:k] + rng.uniform(0, 0.05, k)
+        dom = {"spec": spec, "rows": {"t": [[float(np.float32(v))] for v in tv]}, "k": k,
+               "info": {"kind": "bool", "dim": 2, "dep": True, "relations": ["union:disjoint!", "ratio"], "desc": geo.ref(spec).desc() + "~ratio"}}
+        add("comp", dom, target="interior", mode=str(rng.choice(["big", "small"])), nsmall=10)
     for i in range(8 if quick else 80):
         dom = gen_geo.gen_domain(rng, max_depth=1, allow=("bool", "prim"), k=0, dep=False)
         add("gauss", dom, std_rel=float(rng.uniform(0.15, 0.8)))
+    for i in range(8 if quick else 80):
+        # LHS on boxes whose extent depends on the parameter, several rows: one point per slab of the row's own box
+        d = int(rng.choice([1, 2]))
+        c0 = rng.uniform(-2, 2, d)
+        if d == 1:
+            spec = {"prim": "interval", "var": "x", "lo": float(c0[0]),
+                    "hi": {"a": [float(c0[0] + 0.2)], "terms": [{"var": "t", "col": 0, "kind": "lin", "coef": [1.0]}]}}
+        else:
+            spec = {"prim": "parallelogram", "var": "x", "origin": [float(c0[0]), float(c0[1])],
+                    "c1": {"a": [float(c0[0] + 0.2), float(c0[1])], "terms": [{"var": "t", "col": 0, "kind": "lin", "coef": [1.0, 0.0]}]},
+                    "c2": {"a": [float(c0[0]), float(c0[1] + 0.5)], "terms": [{"var": "t", "col": 0, "kind": "lin", "coef": [0.0, 2.0]}]}}
+        k = int(rng.choice([2, 3]))
+        tv = rng.permutation(np.array([0.5, 1.0, 4.0]))[:k] + rng.uniform(0, 0.05, k)
+        dom = {"spec": spec, "rows": {"t": [[float(np.float32(v))] for v in tv]}, "k": k,
+               "info": {"kind": "prim", "dim": d, "dep": True, "relations": [], "desc": "box%d~t" % d}}
+        add("lhs", dom, n=int(rng.choice([4, 8, 17, 50])))
     for i in range(10 if quick else 100):
         # LHS on boxes: axis aligned parallelogram or interval (and translate of them)
         d = int(rng.choice([1, 2]))
@@ -450,13 +485,22 @@ def run_lhs(case, res):
     import torchphysics as tp
     D, node, Pp, env = sampling.build_case(case)
     n = case["n"]
-    mech = {"fam": "lhs", "dim": node.dim()}
-    box = node.bbox({}, 1)[0]
-    for rep in range(5):
+    k = case["k"]
+    kk = max(k, 1)
+    mech = {"fam": "lhs", "dim": node.dim(), "k": "k0" if k == 0 else "k+"}
+    names = [nm for nm, _ in node.space()]
+    for rep in range(5 * kk):
+        row = rep % kk
+        box = node.bbox({pn: v[row:row + 1] for pn, v in env.items()}, 1)[0]
         try:
             probes.begin_call()
-            X = tp.samplers.LHSSampler(D, n).sample_points().as_tensor.double().numpy()
+            pts = tp.samplers.LHSSampler(D, n).sample_points(Pp) if k else tp.samplers.LHSSampler(D, n).sample_points()
             probes.end_call()
+            Xall = np.concatenate([pts.coordinates[nm].double().numpy().reshape(len(pts), -1) for nm in names], 1)
+            if len(Xall) != n * kk:
+                res["viol"].append(viol("count", "LHSSampler returned %d rows for n=%d and %d parameter rows" % (len(Xall), n, k), **mech))
+                return
+            X = Xall[row * n:(row + 1) * n]
         except Exception as e:
             res["viol"].append(viol("exception", "LHSSampler(n=%d) on a box raised %s in %s: %s" % (n, type(e).__name__, exc_site(e), str(e)[:300]),
                                     exc=type(e).__name__, site=exc_site(e), **mech))
